@@ -60,6 +60,8 @@ PARAM = {
     "civil::datetime::DateTime::constant": {4: (0, 23), 5: (0, 59), 6: (0, 59), 7: (0, 999_999_999)},
     "civil::datetime": {4: (0, 23), 5: (0, 59), 6: (0, 59), 7: (0, 999_999_999)},
     "tz::offset": {1: (-25, 25)},
+    # pub(crate) constructor with a documented precondition (only a debug_assert in the body): the callers owe it
+    "signed_duration::SignedDuration::new_unchecked": {2: (-NS, NS)},
     "signed_duration::SignedDuration::from_hours": {1: (-2_562_047_788_015_215, 2_562_047_788_015_215)},
     "signed_duration::SignedDuration::from_mins": {1: (-153_722_867_280_912_930, 153_722_867_280_912_930)},
     "tz::offset::Offset::constant": {1: (-25, 25)},
